@@ -494,7 +494,9 @@ fn print_read(ch: &mut Choices, out: &mut CaseOut, ctx: &CaseCtx) {
             } else {
                 let got = xs.pop_data().unwrap();
                 let same_type = std::mem::discriminant(got.value()) == std::mem::discriminant(v.value());
-                if got != v || !same_type {
+                // compared bit by bit through bits() as well: the language's equality of bit-strings walks the same
+                // 8-bit groups as the printer, so it cannot be the only judge of the printer
+                if got != v || !same_type || xs::render(&got) != xs::render(&v) {
                     out.fail(
                         format!("print/read round trip differs ({})", match v.value() { Cell::Int(_) => "int", Cell::Bitstr(_) => "bitstr", Cell::Vector(_) => "vector", _ => "map" }),
                         format!("{:?} printed as {:?} reads back as {:?}", xs::render(&v), text, xs::render(&got)),
